@@ -183,6 +183,26 @@ where
     | "deadline" => some .deadline
     | _ => none
 
+/-- One end of the context chain as the harness writes it: `c` / `d` (cancel func called / deadline passed) followed
+by the cause kind `0`..`2` or `-` (no cause given). -/
+def parseCtxEnd? (t : String) : Option CtxEnd :=
+  match t.toList with
+  | [b, k] => do
+    let a ← (match b with | 'c' => some Abort.cancel | 'd' => some Abort.deadline | _ => none)
+    if k = '-' then pure ⟨a, none⟩ else (causeKind? a k).map fun c => ⟨a, some c⟩
+  | _ => none
+
+def showFin : Fin → String
+  | .ok => "OK"
+  | .status c m => codeName c ++ ":" ++ m
+  | .plain m => "P:" ++ m
+
+/-- `ctx.Err()` class and `context.Cause(ctx).Error()` of the call's context. -/
+def showCtxState : CtxState → String
+  | none => "live"
+  | some (.cancel, c) => "X/" ++ c.text
+  | some (.deadline, c) => "D/" ++ c.text
+
 def handleCall (op sh out srv fin cli reuse ctx : String) : Option String := do
   let reuse ← parseBool? reuse
   let shape ← parseShape? sh
@@ -287,6 +307,20 @@ def handleOpt (toks : List String) : Option String :=
     match unwrapFully (stack k (.plain 0)) with
     | .plain i => pure ("plain" ++ toString i)
     | .unwrapper _ => pure "wrapper"
+  | ["hctx", sh, closed, aborted] => do
+    -- has the handler's context ended? (state: the handler has returned / the caller's context has ended)
+    let shape ← parseShape? sh
+    let closed ← parseBool? closed
+    let aborted ← parseBool? aborted
+    let w : Wrap.State := { closed := if closed then some .ok else none, ctxErr := if aborted then some .cancel else none }
+    pure (toString (Wrap.handlerCtxDone (Wrap.handlerCtxOf false shape) w) ++ "/" ++ toString (GrpcRef.handlerCtxDone w))
+  | ["ctxrun", evs] => do
+    let es ← (if evs = "-" then some [] else (evs.splitOn ",").mapM parseCtxEnd?)
+    let st := ctxRun es
+    -- the state, and the class every report site of pkg/wrap gives for it (all sites agree: checked here too)
+    let reads := [CtxSite.invokeEntry, .invokeNotTaken, .newStreamEntry, .clientRecv, .clientAwaitStatus,
+      .serverSendHeader, .serverSendMsg, .serverRecvMsg].map fun site => showFin (Wrap.callerReads (Wrap.siteError site st))
+    pure (showCtxState st ++ " " ++ ";".intercalate reads.eraseDups)
   | ["open", via, method, cs, ss, pre] => do
     let cs ← parseBool? cs
     let ss ← parseBool? ss
